@@ -43,6 +43,25 @@ def exprs():
 PRES = [[], [(1, 2, 1), (2, 1, 0)], [(0, 1, 3), (1, 0, -1)], [(1, 2, -1)], [(0, 2, 2), (2, 0, 2)]]
 
 
+def boundary_scenarios():
+    """requests whose constant sits exactly on / just beside a bound that the root constraints already imply (the TRUE / FALSE
+    shortcuts and the pre-checks of new_eq compare with <, <=, >=, > against those bounds)"""
+    out = []
+    pres = [([(1, 2, 1), (2, 1, 0)], 0, 1), ([(1, 2, 2), (2, 1, 1)], -1, 2)]   # lo <= x2 - x1 <= hi
+    for pre, lo, hi in pres:
+        for kind in range(5):
+            for b in (lo - 1, lo, hi, hi + 1):
+                out.append((pre, kind, (0, 1, 0, 1), (1, 0, b, 1)))      # x2  REL  x1 + b
+                out.append((pre, kind, (1, 0, b, 1), (0, 1, 0, 1)))      # x1 + b  REL  x2
+    # one variable against the origin: 1 <= x1 <= 3
+    pre = [(0, 1, 3), (1, 0, -1)]
+    for kind in range(5):
+        for b in (0, 1, 3, 4):
+            out.append((pre, kind, (1, 0, 0, 1), (0, 0, b, 1)))
+            out.append((pre, kind, (0, 0, b, 1), (1, 0, 0, 1)))
+    return out
+
+
 def fmt(pre, kind, L, R):
     def e(x):
         t = []
@@ -92,10 +111,11 @@ def jobs(tier):
             key = (s[1], PRES.index(s[0]))
             if per.get(key, 0) < 2:
                 per[key] = per.get(key, 0) + 1; sel.append(s)
-        scs = sel
+        bs = boundary_scenarios()
+        scs = sel + [b for i, b in enumerate(bs) if i % 2 == 0]
         k = 5
     else:
-        scs = all_sc
+        scs = all_sc + boundary_scenarios()
         k = 6
     js = []
     opn = open_findings('C12')
